@@ -226,7 +226,7 @@ Definition reno_on_rto (r : reno) (in_flight : Z) : reno :=
   mkReno (rn_mss r) (rn_mss r) ssthresh (rn_rwnd r) false true.
 
 Definition reno_set_mss (r : reno) (mss : Z) : reno :=
-  mkReno (rn_cwnd r) mss (rn_ssthresh r) (rn_rwnd r) (rn_in_fast_recovery r) (rn_in_rto_recovery r).
+  mkReno (Z.max (rn_cwnd r) mss) mss (rn_ssthresh r) (rn_rwnd r) (rn_in_fast_recovery r) (rn_in_rto_recovery r).
 Definition reno_set_remote_window (r : reno) (w : Z) : reno :=
   if rn_rwnd r <? w
   then mkReno (rn_cwnd r) (rn_mss r) (rn_ssthresh r) w (rn_in_fast_recovery r) (rn_in_rto_recovery r)
@@ -421,6 +421,14 @@ Definition tcp_peek_slice (s : socket) (n : Z) : outcome (list Z) :=
 Definition tcp_flight_size (s : socket) : outcome Z :=
   seq_sub (s_remote_last_seq s) (s_local_seq_no s).
 
+(* send_next_seq (l.1416): the highest sequence number ever sent, also after an RTO rewound
+   remote_last_seq; used for segments that occupy no sequence space *)
+Definition tcp_send_next_seq (s : socket) : Z :=
+  match rt_max_seq_sent (s_rtte s) with
+  | Some m => if seq_gt m (s_remote_last_seq s) then m else s_remote_last_seq s
+  | None => s_remote_last_seq s
+  end.
+
 Definition tcp_cwnd_remaining (s : socket) : outcome Z :=
   do f <- tcp_flight_size s;
   Ok (sat_sub (cc_window (s_congestion_controller s)) f).
@@ -509,7 +517,7 @@ Definition tcp_ack_reply (cx : ctx) (s : socket) (ip : ip_repr) (r : tcp_repr) :
   let win := tcp_scaled_window s in
   let s := upd_remote_last_win s win in
   let sack := if s_remote_has_sack s then [tcp_sack_block s ack; None; None] else no_sack in
-  let reply := mkRepr (r_src_port reply) (r_dst_port reply) CNone (s_remote_last_seq s) (Some ack) win
+  let reply := mkRepr (r_src_port reply) (r_dst_port reply) CNone (tcp_send_next_seq s) (Some ack) win
                       None None false sack ts [] in
   (s, with_payload_len ip' reply).
 
@@ -728,7 +736,8 @@ Definition tcp_process_transition (cx : ctx) (s : socket) (ip : ip_repr) (r : tc
   | SynSent, CSyn =>
       let s := tcp_apply_mss s r in
       let s := upd_remote_seq_no s (seq_add (r_seq_number r) 1) in
-      let s := upd_remote_last_seq s (seq_add (s_local_seq_no s) 1) in
+      let s := if is_some (r_ack_number r)
+               then upd_remote_last_seq s (seq_add (s_local_seq_no s) 1) else s in
       let s := upd_remote_last_ack s (Some (r_seq_number r)) in
       let s := upd_remote_has_sack s (r_sack_permitted r) in
       let s := upd_remote_win_scale s (r_window_scale r) in
@@ -1120,6 +1129,8 @@ Definition tcp_dispatch_build (cx : ctx) (s : socket) (t : tuple)
   match orepr with
   | None => Ok (s, None, false, false, tg)
   | Some repr =>
+      let repr := if repr_is_empty repr && control_eqb (r_control repr) CNone
+                  then repr_set_seq repr (tcp_send_next_seq s) else repr in
       let is_keep_alive := timer_should_keep_alive (s_timer s) now && repr_is_empty repr in
       let repr := if is_keep_alive
                   then repr_set_payload (repr_set_seq repr (seq_subn (r_seq_number repr) 1)) [0]
@@ -1144,7 +1155,8 @@ Definition tcp_dispatch_finish (cx : ctx) (s : socket) (repr : tcp_repr)
   if is_zero_window_probe then (upd_timer s (timer_rewind_zero_window_probe (s_timer s) now), 240) else
   if is_keep_alive then (s, 241) else
   let seg_end := seq_add (r_seq_number repr) (repr_segment_len repr) in
-  let s := upd_remote_last_seq s (seq_max (s_remote_last_seq s) seg_end) in
+  let s := if repr_segment_len repr >? 0
+           then upd_remote_last_seq s (seq_max (s_remote_last_seq s) seg_end) else s in
   let s := upd_remote_last_ack s (r_ack_number repr) in
   let s := upd_remote_last_win s (if control_eqb (r_control repr) CSyn
                                   then shr (r_window_len repr) (s_remote_win_shift s)
